@@ -923,6 +923,11 @@ V("c17g-samples-from-normal-block-only", "C17", {"rule": "C17g", "contains": "ge
 V("c11h-module-cache-get-form-omits-cutoff", "C11", {"rule": "C11h", "contains": "module cache"},
   (NPCONN, "@nb.njit(cache=True)\ndef calculate_interferometer_on_fermionic_fock_space(matrix, cutoff):",
    "_representations_cache: dict = {}\n\n\ndef calculate_interferometer_on_fermionic_fock_space(matrix, cutoff):\n    key = (matrix.shape, matrix.tobytes())\n    representations = _representations_cache.get(key)\n    if representations is None:\n        representations = _calculate_representations(matrix, cutoff)\n        _representations_cache[key] = representations\n    return representations\n\n\n@nb.njit(cache=True)\ndef _calculate_representations(matrix, cutoff):"))
+V("c17g-passive-update-split-per-block", "C17", {"exit": 2},  # C17g stays silent; C17b cannot follow the extracted helper: undecided, never a violation
+ 
+  (FGSTEPS, "    state._E = connector.assign(\n        state._E, select_columns, state._E[select_columns] @ unitary.T.conj()\n    )\n    state._E = connector.assign(\n        state._E, select_rows, unitary.conj() @ state._E[select_rows]\n    )",
+   "    _update_pairing_block(state, connector, select_columns, select_rows, unitary)"),
+  (FGSTEPS, "def passive_linear_gate(", "def _update_pairing_block(state, connector, select_columns, select_rows, unitary):\n    state._E = connector.assign(\n        state._E, select_columns, state._E[select_columns] @ unitary.T.conj()\n    )\n    state._E = connector.assign(\n        state._E, select_rows, unitary.conj() @ state._E[select_rows]\n    )\n\n\ndef passive_linear_gate("))
 V("c17d-amplitude-map-unchecked", "C17", {"rule": "C17d", "contains": "state_vector"},
   (FFSTEPS, "                if len(occ_numbers) != state._d or not all_zero_or_one(occ_numbers):", "                if len(occ_numbers) != state._d:"))
 V("c17d-gaussian-unchecked", "C17", {"rule": "C17d", "contains": "state_vector"},
